@@ -106,6 +106,11 @@ def main():
             keep.append(unrelated(step[1], step[2], False, False))
         elif step[0] == "sibling":
             keep.append(sibling(step[1], step[2], bool(step[3]) if len(step) > 3 else False))
+        elif step[0] == "printopts":
+            # other process-global state an earlier, unrelated piece of code may have touched: numpy's print options and
+            # floating-point error handling
+            np.set_printoptions(precision=int(step[1]), suppress=True, linewidth=int(step[2]), threshold=int(step[3]), floatmode="fixed")
+            np.seterr(all="ignore")
     out["state_at_construction"] = state_digest()
     b, calls = build()
     for step in plan.get("mid", []):
